@@ -392,7 +392,11 @@ pub(crate) fn read_bytes(
     read_start_position: u64
 ) -> Result<Vec<u8>, std::io::Error> {
     let mut handle = File::open(path)?;
-    let mut read_bytes = Vec::with_capacity(read_length as usize);
+    // The length is only declared by the torrent (a candidate of that size may be a sparse file): a buffer that
+    // cannot be allocated is an error for this piece, not an abort of the process.
+    let mut read_bytes = Vec::new();
+    read_bytes.try_reserve_exact(usize::try_from(read_length).unwrap_or(usize::MAX))
+        .map_err(|error| std::io::Error::new(std::io::ErrorKind::OutOfMemory, error))?;
 
     handle.seek(SeekFrom::Start(read_start_position))?;
     handle.take(read_length)
@@ -410,6 +414,8 @@ pub(crate) fn read_bytes_reuse_buffer(
     let mut handle = File::open(path)?;
 
     read_bytes.clear();
+    read_bytes.try_reserve(usize::try_from(read_length).unwrap_or(usize::MAX))
+        .map_err(|error| std::io::Error::new(std::io::ErrorKind::OutOfMemory, error))?;
     handle.seek(SeekFrom::Start(read_start_position))?;
     handle.take(read_length)
         .read_to_end(&mut read_bytes)?;
